@@ -697,99 +697,65 @@ theorem rescheduleRecovered_spec {qs : QuantSpec} {q q' : Queue} {infos : List S
 
 /-! ### `reschedule_all_as_faults` keeps the entries duplicate-free -/
 
-theorem collectAllFaults_nodup (faultQ : Int) :
-    ∀ (q : Queue) (muts : List (Int × ExpSet)) (eps : List Int) (secs : NatSet) (pow : PowerPair)
-      (fee : Int), QNodup q → collectAllFaults faultQ q = .ok (muts, eps, secs, pow, fee) →
-    (∀ e es, (e, es) ∈ muts → EntryNodup es) ∧ secs.Nodup := by
+theorem allFaultsWalk_nodup (faultQ : Int) :
+    ∀ (q kept : Queue) (eps : List Int) (secs : NatSet) (pow : PowerPair) (fee : Int),
+      QNodup q → allFaultsWalk faultQ q = .ok (kept, eps, secs, pow, fee) →
+      QNodup kept ∧ secs.Nodup := by
   intro q
   induction q with
   | nil =>
-    intro muts eps secs pow fee _ h
-    simp only [collectAllFaults, Except.ok.injEq, Prod.mk.injEq] at h
+    intro kept eps secs pow fee _ h
+    simp only [allFaultsWalk, Except.ok.injEq, Prod.mk.injEq] at h
     obtain ⟨rfl, _, rfl, _⟩ := h
-    exact ⟨by simp, by simp⟩
+    exact ⟨by simp [QNodup], by simp⟩
   | cons hd rest ih =>
-    intro muts eps secs pow fee hq h
+    intro kept eps secs pow fee hq h
     obtain ⟨e, es⟩ := hd
     have hq' : QNodup rest := fun e' es' h' => hq e' es' (List.mem_cons_of_mem _ h')
     have hes : EntryNodup es := hq e es (by simp)
-    unfold collectAllFaults at h
+    unfold allFaultsWalk at h
     by_cases hc : e ≤ faultQ
     · simp only [hc, if_true] at h
-      cases hr : collectAllFaults faultQ rest with
+      cases hr : allFaultsWalk faultQ rest with
       | error err => simp [hr] at h
       | ok x =>
-        obtain ⟨m3, e3, s3, p3, f3⟩ := x
-        simp only [hr, Except.ok.injEq, Prod.mk.injEq] at h
-        obtain ⟨rfl, _, rfl, _⟩ := h
-        obtain ⟨i1, i2⟩ := ih m3 e3 s3 p3 f3 hq' hr
-        refine ⟨?_, i2⟩
-        intro e' es' h'
-        rcases List.mem_cons.mp h' with h' | h'
-        · cases h'; exact hes
-        · exact i1 e' es' h'
+        obtain ⟨k3, e3, s3, p3, f3⟩ := x
+        simp only [hr] at h
+        obtain ⟨i1, i2⟩ := ih k3 e3 s3 p3 f3 hq' hr
+        split at h
+        · simp at h
+        · simp only [Except.ok.injEq, Prod.mk.injEq] at h
+          obtain ⟨rfl, _, rfl, _⟩ := h
+          refine ⟨?_, i2⟩
+          intro e' es' h'
+          rcases List.mem_cons.mp h' with h' | h'
+          · cases h'; exact hes
+          · exact i1 e' es' h'
     · simp only [hc, if_false] at h
       by_cases he : (!es.early.isEmpty) = true
       · simp [he] at h
       · simp only [he, Bool.false_eq_true, if_false] at h
-        cases hr : collectAllFaults faultQ rest with
+        cases hr : allFaultsWalk faultQ rest with
         | error err => simp [hr] at h
         | ok x =>
-          obtain ⟨m3, e3, s3, p3, f3⟩ := x
+          obtain ⟨k3, e3, s3, p3, f3⟩ := x
           simp only [hr, Except.ok.injEq, Prod.mk.injEq] at h
           obtain ⟨rfl, _, rfl, _⟩ := h
-          obtain ⟨i1, i2⟩ := ih m3 e3 s3 p3 f3 hq' hr
+          obtain ⟨i1, i2⟩ := ih k3 e3 s3 p3 f3 hq' hr
           exact ⟨i1, nodup_union hes.1 i2⟩
-
-theorem updateAll_nodup :
-    ∀ (muts : List (Int × ExpSet)) (q q' : Queue), QNodup q →
-      (∀ e es, (e, es) ∈ muts → EntryNodup es) → updateAll q muts = .ok q' → QNodup q' := by
-  intro muts
-  induction muts with
-  | nil => intro q q' hq _ h; simp [updateAll] at h; subst h; exact hq
-  | cons hd rest ih =>
-    intro q q' hq hm h
-    obtain ⟨e, es⟩ := hd
-    unfold updateAll at h
-    cases hu : mustUpdate q e es with
-    | error err => simp [hu] at h
-    | ok q1 =>
-      simp only [hu] at h
-      split at h
-      · simp at h
-      · exact ih q1 q' (mustUpdate_nodup hq (hm e es (by simp)) hu)
-          (fun e' es' h' => hm e' es' (List.mem_cons_of_mem _ h')) h
-
-theorem deleteAll_nodup (eps : List Int) : ∀ (q : Queue), QNodup q → QNodup (deleteAll q eps) := by
-  induction eps with
-  | nil => intro q hq; exact hq
-  | cons e rest ih =>
-    intro q hq
-    simp only [deleteAll, List.foldl_cons]
-    exact ih _ (qnodup_qdel hq)
 
 theorem rescheduleAllAsFaults_nodup {qs : QuantSpec} {q q' : Queue} {fe : Int} (hq : QNodup q)
     (h : rescheduleAllAsFaults qs q fe = .ok q') : QNodup q' := by
   unfold rescheduleAllAsFaults at h
-  cases hc : collectAllFaults (qs.quantizeUp fe) q with
+  cases hc : allFaultsWalk (qs.quantizeUp fe) q with
   | error e => simp [hc] at h
   | ok x =>
-    obtain ⟨muts, eps, secs, pow, fee⟩ := x
+    obtain ⟨kept, eps, secs, pow, fee⟩ := x
     simp only [hc] at h
-    obtain ⟨a1, a2⟩ := collectAllFaults_nodup _ q muts eps secs pow fee hq hc
-    cases hu : updateAll q muts with
-    | error e => simp [hu] at h
-    | ok q1 =>
-      simp only [hu] at h
-      have hq1 := updateAll_nodup muts q q1 hq a1 hu
-      by_cases he : eps.isEmpty = true
-      · simp only [he, if_true, Except.ok.injEq] at h; subst h; exact hq1
-      · simp only [he, Bool.false_eq_true, if_false] at h
-        cases ha : qadd qs q1 fe [] secs PowerPair.zero pow 0 fee with
-        | error e => simp [ha] at h
-        | ok q2 =>
-          simp only [ha, Except.ok.injEq] at h
-          subst h
-          exact deleteAll_nodup eps _ (qadd_nodup hq1 (by simp) a2 ha)
+    obtain ⟨a1, a2⟩ := allFaultsWalk_nodup _ q kept eps secs pow fee hq hc
+    by_cases he : eps.isEmpty = true
+    · simp only [he, if_true, Except.ok.injEq] at h; subst h; exact a1
+    · simp only [he, Bool.false_eq_true, if_false] at h
+      exact qadd_nodup a1 (by simp) a2 h
 
 end BA.Sector
